@@ -44,6 +44,7 @@ func (g *FailoverGroup) GetChunk(id ChunkID) (*Chunk, error) {
 
 		// Fail over to the next store
 		g.errorFrom(active)
+		verifYield("fo.switched", "from", active)
 	}
 	return nil, gErr
 }
@@ -62,6 +63,7 @@ func (g *FailoverGroup) HasChunk(id ChunkID) (bool, error) {
 
 		// Fail over to the next store
 		g.errorFrom(active)
+		verifYield("fo.switched", "from", active)
 	}
 	return false, gErr
 }
